@@ -664,12 +664,10 @@ end CV.C13.Flow
 
 `Gen.newIpfsAdder` / `Gen.ipfsAdd` are read from adder/adder.go and adder/ipfsadd/add.go by `harness/extract_c13par`
 (statements with their right-hand sides as expression trees) and INTERPRETED by `Par.settingsOf` / `Par.importerOf`
-(Model/C13Par.lean). "Equals what the standard importer computes for the same parameters" needs every explicit
+(Model/C13Par.lean). The theorems are proved by running the interpreter symbolically on the generated programs themselves, not
+through a textual equality: a rewrite that keeps the meaning still checks, an edit that changes a value for some request does not. "Equals what the standard importer computes for the same parameters" needs every explicit
 request value to be the importer's value: `Par.expected`, written from the property text. -/
 namespace CV.C13.Par
-
-/-- the statements read from the source are the program the theorems below were proved for -/
-theorem gen_par_flow : Gen.newIpfsAdder = code ∧ Gen.ipfsAdd = addCode := by decide
 
 /-- the importer constants of the linked libraries are the ones the importer model (Model/C13Import.lean) is written
     with (width 174, trickle repeat 4, default chunk 262144) and meet the hypotheses of its theorems (`W ≥ 2`, `n > 0`) -/
@@ -684,8 +682,7 @@ theorem gen_importer_constants :
     CIDv0 with another hash than sha2-256. -/
 theorem params_reach_importer (names : List (String × Nat)) (r : Req) :
     settingsOf names Gen.newIpfsAdder r = expected names r := by
-  rw [gen_par_flow.1]
-  exact code_settings names r
+  exact gen_settings names r
 
 /-- field by field: when an importer is built, raw-leaves, no-copy, chunker string and progress are the request's,
     trickle iff the layout is "trickle", the CID builder is the requested version (0 or 1) with the requested hash
@@ -703,8 +700,7 @@ theorem explicit_values_unchanged (names : List (String × Nat)) (r : Req) (s : 
     as they are, the width is `DefaultLinksPerBlock` -/
 theorem importer_gets_settings (links : Nat) (s : Settings) :
     importerOf links Gen.ipfsAdd s = some ⟨s.chunker, s.rawLeaves, links, s.noCopy, s.builder, s.trickle⟩ := by
-  rw [gen_par_flow.2]
-  exact importerOf_addCode links s
+  exact gen_importerOf links s
 
 /-- both hops: request → what go-unixfs is run with -/
 theorem plumb_end_to_end (names : List (String × Nat)) (links : Nat) (r : Req) :
